@@ -188,9 +188,18 @@ func (e *Engine) cmdCheck(prop, tier, evid, known, replayDir string, replay bool
 	for _, n := range fns {
 		inSet[n] = true
 	}
+	var bindFailures []*Obligation
 	for _, n := range fns {
 		fc, err := e.genFunc(n)
 		if err != nil {
+			if strings.Contains(err.Error(), "unknown identifier") && e.funcs[n] != nil {
+				// a contract that names something the function no longer has does not describe the code any
+				// more: reported as a failed obligation of that function, not as a tool failure
+				ob := &Obligation{Fn: n, Name: n + "#contract.binding", Kind: "anchor", Cond: "false", Guard: "true",
+					Status: "failed", Solver: "contract binding", Src: "the contract of " + n + " no longer binds to its body: " + err.Error(), Pos: e.funcs[n].Pos()}
+				bindFailures = append(bindFailures, ob)
+				continue
+			}
 			e.toolErrors = append(e.toolErrors, fmt.Sprintf("%s: %v", n, err))
 			continue
 		}
@@ -229,6 +238,7 @@ func (e *Engine) cmdCheck(prop, tier, evid, known, replayDir string, replay bool
 		all = append(all, e.canonObligations()...)
 	}
 	all = append(all, e.wirefmtObligations(prop)...)
+	all = append(all, bindFailures...)
 	// lemmas: those tagged with the property and those cited by the functions under contract
 	lemmaSet := map[string]bool{}
 	for _, l := range e.cs.Lemmas {
@@ -368,7 +378,7 @@ func (e *Engine) cmdCheck(prop, tier, evid, known, replayDir string, replay bool
 	}
 	// obligation-count guard
 	minOb := e.baselineMin(prop)
-	if nOb < minOb {
+	if nOb < minOb && len(bindFailures) == 0 {
 		e.toolErrors = append(e.toolErrors, fmt.Sprintf("obligation count %d below the committed minimum %d for %s (contracts no longer bind?)", nOb, minOb, prop))
 	}
 	if len(samples) == 0 && len(all) > 0 {
